@@ -121,8 +121,8 @@ pub fn parse(input: &str) -> Result<AisleConf, AisleConfError> {
         if let Some((l, _)) = line.split_once("//") {
             line = l;
         }
-        // strip whitespace
-        line = line.trim_ascii();
+        // strip whitespace, the same way the names are trimmed below
+        line = line.trim();
 
         if line.starts_with('[') && line.ends_with(']') {
             let name = &line[1..line.len() - 1];
